@@ -27,6 +27,9 @@ class HarnessFailure(Exception):
     pass
 
 
+DEGRADED = {}     # (variant, harness) -> first compile error, when the harness had to be built without access to private library state
+
+
 def sha(*parts):
     h = hashlib.sha256()
     for p in parts:
@@ -120,8 +123,23 @@ def build_harness(variant, name, sources, extra_flags=None, extra_link=None):
         hsrcs = [os.path.join(VERIF, s) for s in sources] + [os.path.join(VERIF, 'harness', 'vh.cpp')]
         if variant == 'tsan':
             hsrcs.append(os.path.join(VERIF, 'interpose', 'tsan_volatile.cpp'))
-        hf = [pool.submit(compile_obj, variant, s, ['-fno-access-control', '-Wno-invalid-offsetof'] + extra_flags, outdir, 'h') for s in hsrcs]
-        objs = [f.result() for f in hf] + [f.result() for f in libf]
+        priv = ['-fno-access-control', '-Wno-invalid-offsetof']
+        nopriv = ['-DVERIF_NO_PRIVATE']      # fallback: public API only (structural walkers off), used when the private layout the walkers read has changed
+        force = bool(os.environ.get('VERIF_FORCE_NO_PRIVATE'))
+        libobjs = [f.result() for f in libf]
+        try:
+            if force:
+                raise HarnessFailure('forced')
+            hf = [pool.submit(compile_obj, variant, s, priv + extra_flags, outdir, 'h') for s in hsrcs]
+            hobjs = [f.result() for f in hf]
+        except HarnessFailure as first:
+            try:
+                hf = [pool.submit(compile_obj, variant, s, nopriv + extra_flags, outdir, 'hnp') for s in hsrcs]
+                hobjs = [f.result() for f in hf]
+            except HarnessFailure:
+                raise first if not force else HarnessFailure('harness does not compile with -DVERIF_NO_PRIVATE')
+            DEGRADED[(variant, name)] = str(first)[:400]
+        objs = hobjs + libobjs
     key = sha(*objs, ' '.join(extra_link))
     binp = os.path.join(outdir, 'bin', '%s-%s' % (name, key))
     if os.path.exists(binp):
